@@ -221,6 +221,9 @@ def overlay_for(pkgs):
         inst = instrument_workunitbase(gen)
         if inst:
             repl[os.path.join(REPO, "pkg/workceptor/workunitbase.go")] = inst
+        inst2 = instrument_workceptor_go(gen)
+        if inst2:
+            repl[os.path.join(REPO, "pkg/workceptor/workceptor.go")] = inst2
     ov = os.path.join(gen, "overlay_" + hashlib.md5(" ".join(sorted(pkgs)).encode()).hexdigest()[:8] + ".json")
     json.dump({"Replace": repl}, open(ov, "w"), indent=1)
     return ov
@@ -240,7 +243,44 @@ def instrument_workunitbase(gen):
         return None
     body = m.group(0).replace("\terr = sfd.saveToFile(file)\n", "\tverifStatusHook(filename, false, nil, sfd)\n\terr = sfd.saveToFile(file)\n")
     src = src.replace(m.group(0), body)
+    # crash points (C04): verifCrashPoint(name) kills the process when the harness has armed that point
+    def ins_after(text, anchor, call, count=1):
+        if text.count(anchor) != count:
+            return None
+        return text.replace(anchor, anchor + call)
+    m = re.search(r"func \(sfd \*StatusFileData\) UpdateFullStatus\(.*?\n\}\n", src, re.S)
+    if m:
+        body = m.group(0)
+        b2 = ins_after(body, "\tdefer sfd.unlockStatusFile(filename, lockFile)\n", "\tverifCrashPoint(\"upd.locked\")\n")
+        if b2:
+            b3 = ins_after(b2, "\terr = file.Truncate(0)\n\tif err != nil {\n\t\treturn err\n\t}\n", "\tverifCrashPoint(\"upd.truncated\")\n")
+            if b3:
+                b4 = ins_after(b3, "\terr = sfd.saveToFile(file)\n\tif err != nil {\n\t\treturn err\n\t}\n", "\tverifCrashPoint(\"upd.written\")\n")
+                if b4:
+                    src = src.replace(body, b4)
+    m = re.search(r"func \(sfd \*StatusFileData\) Save\(filename string\) error \{.*?\n\}\n", src, re.S)
+    if m:
+        body = m.group(0)
+        b2 = ins_after(body, "\tfile, err := os.OpenFile(filename, os.O_CREATE|os.O_WRONLY|os.O_TRUNC, 0o600)\n\tif err != nil {\n\t\treturn err\n\t}\n",
+                       "\tverifCrashPoint(\"save.truncated\")\n")
+        if b2:
+            src = src.replace(body, b2)
     out = os.path.join(gen, "pkg_workceptor_workunitbase_instrumented.go")
+    if not os.path.exists(out) or open(out).read() != src:
+        open(out, "w").write(src)
+    return out
+
+
+def instrument_workceptor_go(gen):
+    """AllocateUnit with crash points after the directory is made and after the unit is saved and registered."""
+    src = open(os.path.join(REPO, "pkg/workceptor/workceptor.go")).read()
+    a = "\tident, err := w.generateUnitID(false)\n\tif err != nil {\n\t\treturn nil, err\n\t}\n"
+    b = "\tw.activeUnits[ident] = worker\n\n\treturn worker, nil\n"
+    if src.count(a) != 1 or src.count(b) != 1:
+        return None
+    src = src.replace(a, a + "\tverifCrashPoint(\"alloc.mkdir\")\n")
+    src = src.replace(b, "\tw.activeUnits[ident] = worker\n\tverifCrashPoint(\"alloc.saved\")\n\n\treturn worker, nil\n")
+    out = os.path.join(gen, "pkg_workceptor_workceptor_instrumented.go")
     if not os.path.exists(out) or open(out).read() != src:
         open(out, "w").write(src)
     return out
